@@ -263,8 +263,8 @@ def Node.toks : Node → Nat → List TTok
     [TTok.array (i + 1 + itemsSize items) m] ++ itemsToks items (i + 1) ++ [TTok.end_ i]
   | .obj flag m fields rest, i =>
     [TTok.object (i + 1 + fieldsSize fields + (if m then 1 else 0) + itemsSize rest) flag] ++
-      fieldsToks fields (i + 1) ++
-      (if m then [TTok.mixed] ++ itemsToks rest (i + 1 + fieldsSize fields + 1) else []) ++ [TTok.end_ i]
+      fieldsToks fields (i + 1) ++ (if m then [TTok.mixed] else []) ++
+      itemsToks rest (i + 1 + fieldsSize fields + (if m then 1 else 0)) ++ [TTok.end_ i]
   | .header s body, i => [TTok.header s] ++ body.toks (i + 1)
 def itemsToks : List Item → Nat → List TTok
   | [], _ => []
@@ -286,8 +286,8 @@ def Field.toks : Field → Nat → List TTok
 end
 
 def tapeOf (d : Doc) : Tape :=
-  (fieldsToks d.fields 0 ++
-    (if d.mixed then [TTok.mixed] ++ itemsToks d.rest (fieldsSize d.fields + 1) else [])).toArray
+  (fieldsToks d.fields 0 ++ (if d.mixed then [TTok.mixed] else []) ++
+    itemsToks d.rest (fieldsSize d.fields + (if d.mixed then 1 else 0))).toArray
 
 /-! ### the JSON value of a tree -/
 
